@@ -5,6 +5,24 @@ import json, os, re, subprocess
 here = os.path.dirname(os.path.dirname(os.path.abspath(__file__)))
 kf = json.load(open(os.path.join(here, 'known_findings.json')))['findings']
 out = []
+claims = json.load(open(os.path.join(here, 'tools', 'claims.json')))
+out.append('### E.0 Per-property status as built\n')
+out.append('| ID | Lean files (model; proofs) | theorems audited | last evidence: cases / comparisons / property checks | claim (abridged) |\n|---|---|---|---|---|')
+for pid in sorted(claims):
+    prop = os.path.join(here, 'lean', 'ChiProofs', 'Props', pid + '.lean')
+    src = open(prop).read() if os.path.exists(prop) else ''
+    imports = re.findall(r'^import (ChiModel\.\S+|ChiProofs\.Lemmas\.\S+)', src, flags=re.M)
+    nthm = len(re.findall(r'^theorem ', src, flags=re.M))
+    ev = {}
+    evp = os.path.join(here, 'evidence', pid + '.json')
+    if os.path.exists(evp):
+        ev = json.load(open(evp))['coverage']
+    c = ev.get('correspondence', {})
+    out.append('| %s | %s | %d | %s / %s / %s | %s |' % (
+        pid, ', '.join(i.replace('ChiModel.', '').replace('ChiProofs.Lemmas.', 'L:') for i in imports) or '(core only)', nthm,
+        ev.get('evaluations', '?'), c.get('comparisons', '?'), c.get('property_checks_on_chi', '?'),
+        claims[pid]['text'][:330].replace('|', '/') + '…'))
+out.append('')
 out.append('### E.1 Repairs made to DavAug/chi (`fix:` commits in /repo, oldest first)\n')
 log = subprocess.run(['git', '-C', '/repo', 'log', '--reverse', '--format=%h %s'], capture_output=True, text=True).stdout.splitlines()
 by_commit = {}
